@@ -5,6 +5,8 @@ import (
 	"path/filepath"
 	"sort"
 	"strings"
+
+	"golang.org/x/tools/go/ssa"
 )
 
 // The engine self-test corpus: a synthetic package that exists only as a go/packages
@@ -312,6 +314,85 @@ func (x *L) OkE11StoredFirst(addr string) (err error) {
 	return nil
 }
 
+// ---- E12 nil safety
+type N struct {
+	tm    *time.Timer
+	peer  *L
+	route []byte
+	from  *L
+	byID  map[int]*L
+	lazy  map[int]*L
+}
+
+func NewN() *N { return &N{byID: map[int]*L{}} }
+
+func (x *N) Arm() {
+	if x.tm != nil {
+		x.tm.Stop()
+		x.tm = nil
+	}
+	x.tm = time.AfterFunc(time.Second, func() {})
+}
+
+func (x *N) BadE12Stop() {
+	x.tm.Stop()
+	x.tm = nil
+}
+
+func (x *N) OkE12Stop() {
+	if t := x.tm; t != nil {
+		t.Stop()
+	}
+}
+
+func (x *N) SetPeer(p *L) { x.peer = p }
+func (x *N) Drop()        { x.peer = nil }
+
+func (x *N) BadE12AfterClear() bool {
+	if x.peer == nil {
+		return false
+	}
+	x.Drop()
+	return x.peer.ready
+}
+
+func (x *N) OkE12Helper() bool {
+	if x.peer == nil {
+		return false
+	}
+	return x.peerReady()
+}
+
+func (x *N) peerReady() bool { return x.peer.ready }
+
+func (x *N) Got(route []byte, from *L) {
+	if route != nil && from != nil {
+		x.route = route
+		x.from = from
+	}
+}
+
+func (x *N) OkE12Companion() bool {
+	if x.route == nil {
+		return false
+	}
+	f := x.from
+	x.from = nil
+	x.route = nil
+	return f.ready
+}
+
+func (x *N) OkE12Map(id int, l *L) { x.byID[id] = l }
+
+func (x *N) BadE12LazyMap(id int, l *L) { x.lazy[id] = l }
+
+func (x *N) OkE12LazyMap(id int, l *L) {
+	if x.lazy == nil {
+		x.lazy = map[int]*L{}
+	}
+	x.lazy[id] = l
+}
+
 // ---- round-8 rules: requeue, publish order, complete read
 type Q struct {
 	q     chan *mangos.Message
@@ -452,6 +533,7 @@ func runSelfTests(verifDir string) SelfTestResult {
 		noRequeue(p, r8, "requeue", self)
 		publishOrder(p, r8, "publish", self)
 		completeReadFatal(p, r8, "read", self)
+		nilSafe(p, r8, "e12", "self-test", func(fn *ssa.Function) bool { rel, _ := p.FuncRel(fn); return rel == selfTestRel })
 		for _, o := range r8.Obs {
 			if o.Status == Discharged {
 				continue
@@ -486,8 +568,11 @@ func runSelfTests(verifDir string) SelfTestResult {
 		"BadRequeue":             "requeue",
 		"BadPublish":             "publish",
 		"BadShortRead":           "read",
+		"BadE12Stop":             "e12",
+		"BadE12AfterClear":       "e12",
+		"BadE12LazyMap":          "e12",
 	}
-	silent := []string{"okE1Defer", "OkE3Read", "OkE3bRecheck", "OkCondWait", "OkE5Once", "OkE5UniqueThenWrite", "OkE6d", "OkE6dRange", "SetN", "Close", "NewT", "OkE5Loop", "OkBufferBeforeFree", "OkE11Closed", "OkE11StoredFirst", "OkForward", "OkPublish", "OkFullRead"}
+	silent := []string{"okE1Defer", "OkE3Read", "OkE3bRecheck", "OkCondWait", "OkE5Once", "OkE5UniqueThenWrite", "OkE6d", "OkE6dRange", "SetN", "Close", "NewT", "OkE5Loop", "OkBufferBeforeFree", "OkE11Closed", "OkE11StoredFirst", "OkForward", "OkPublish", "OkFullRead", "Arm", "OkE12Stop", "OkE12Helper", "peerReady", "OkE12Companion", "OkE12Map", "OkE12LazyMap"}
 	var names []string
 	for k := range want {
 		names = append(names, k)
